@@ -180,8 +180,10 @@ theorem flattenMangle_length (cfg : FlattenCfg) (fuel : Nat) (h : Hdr) (t : Ty) 
 mutual
 /-- every struct type nested in `t` (as flatten sees it: through pointers and struct fields, not into
 slices / arrays / maps, which are leaves) sits behind at least one pointer — what Pointerify
-guarantees; `populate` panics (reflect.Set of a `*struct` into a `struct`) exactly where this fails
-and a child is set -/
+guarantees.  (Before the repair of P02 `populate` panicked — reflect.Set of a `*struct` into a `struct` —
+exactly where this fails and a child is set; since the repair `populate_spec` needs no such
+hypothesis.  The predicate is kept for `Canon`-style statements about values: a by-value struct has
+two representations of "nothing set", the zero struct and `nilv`.) -/
 def structsBehindPtr : Ty → Bool
   | .ptr e => underPtr e
   | .struct _ => false
@@ -231,8 +233,7 @@ theorem populate_struct {t : Ty} {ifs : Fields} (hs : stripPtrs t = .struct ifs)
     populate (fuel + 1) t vals =
       match populate.fields fuel (ifs.toList.length + 1) ifs.toList vals [] false with
       | .ok (fvs, vals', any) =>
-        if any then (if ptrDepth t == 0 then .panic "reflect.Set: *struct into struct"
-          else .ok (wrapPtrs (ptrDepth t) (.struct fvs), vals', true))
+        if any then .ok (wrapPtrs (ptrDepth t) (.struct fvs), vals', true)
         else .ok (.nilv, vals', false)
       | .err c => .err c
       | .panic c => .panic c := by
@@ -370,16 +371,15 @@ def PopSpec (fuel : Nat) (t : Ty) (vals rest : List Val) : Prop :=
 /-- the field loop, given the statement for the field types at the inner fuel -/
 theorem populate_fields_spec (fuel : Nat)
     (ih : ∀ t, tySize t < fuel + 1 → ∀ vals rest, vals.length = leafN t →
-      (structsBehindPtr t = true ∨ ∀ x ∈ vals, x = Val.nilv) → PopSpec (fuel + 1) t vals rest) :
+      PopSpec (fuel + 1) t vals rest) :
     ∀ (fs : List FT), (∀ f ∈ fs, tySize f.2 < fuel + 1) → ∀ fl, fs.length < fl →
     ∀ (vals rest acc : List Val) (any : Bool), vals.length = (fs.map fun f => leafN f.2).sum →
-      ((∀ f ∈ fs, structsBehindPtr f.2 = true) ∨ ∀ x ∈ vals, x = Val.nilv) →
       ∃ fvs, populate.fields (fuel + 1) fl fs (vals ++ rest) acc any = .ok (acc ++ fvs, rest, any || anySet vals) ∧
         flatLeaves.go (fuel + 1) fl fs (some fvs) = vals := by
   intro fs
   induction fs with
   | nil =>
-    intro _ fl hfl vals rest acc any hl _
+    intro _ fl hfl vals rest acc any hl
     cases fl with
     | zero => omega
     | succ fl =>
@@ -389,7 +389,7 @@ theorem populate_fields_spec (fuel : Nat)
       · unfold populate.fields; simp [anySet]
       · unfold flatLeaves.go; rfl
   | cons f fs ihfs =>
-    intro hsz fl hfl vals rest acc any hl hg
+    intro hsz fl hfl vals rest acc any hl
     cases fl with
     | zero => omega
     | succ fl =>
@@ -401,17 +401,9 @@ theorem populate_fields_spec (fuel : Nat)
       have hl1 : v1.length = leafN f.2 := by rw [← h1, List.length_take]; omega
       have hl2 : v2.length = (fs.map fun f => leafN f.2).sum := by rw [← h2, List.length_drop]; omega
       subst hv
-      have hg1 : structsBehindPtr f.2 = true ∨ ∀ x ∈ v1, x = Val.nilv := by
-        rcases hg with hg | hg
-        · exact Or.inl (hg f (by simp))
-        · exact Or.inr (fun x hx => hg x (by simp [hx]))
-      have hg2 : (∀ g ∈ fs, structsBehindPtr g.2 = true) ∨ ∀ x ∈ v2, x = Val.nilv := by
-        rcases hg with hg | hg
-        · exact Or.inl (fun g hg' => hg g (by simp [hg']))
-        · exact Or.inr (fun x hx => hg x (by simp [hx]))
-      obtain ⟨v, hp, hfl1, _⟩ := ih f.2 (hsz f (by simp)) v1 (v2 ++ rest) hl1 hg1
+      obtain ⟨v, hp, hfl1, _⟩ := ih f.2 (hsz f (by simp)) v1 (v2 ++ rest) hl1
       obtain ⟨fvs, hp2, hgo⟩ := ihfs (fun g hg' => hsz g (by simp [hg'])) fl
-        (by simp at hfl; omega) v2 rest (acc ++ [v]) (any || anySet v1) hl2 hg2
+        (by simp at hfl; omega) v2 rest (acc ++ [v]) (any || anySet v1) hl2
       refine ⟨v :: fvs, ?_, ?_⟩
       · rw [populate_fields_step, List.append_assoc, hp]
         simp only
@@ -419,27 +411,24 @@ theorem populate_fields_spec (fuel : Nat)
         simp [anySet_append, Bool.or_assoc]
       · rw [go_cons, hfl1, hgo]
 
+/-- `populate` restores EVERY filling of the leaves of EVERY type (no pointer hypothesis since the repair
+of P02: a struct held by value receives the rebuilt struct itself) -/
 theorem populate_spec : ∀ (fuel : Nat) (t : Ty), tySize t < fuel → ∀ (vals rest : List Val),
-    vals.length = leafN t → (structsBehindPtr t = true ∨ ∀ x ∈ vals, x = Val.nilv) →
-    PopSpec fuel t vals rest
+    vals.length = leafN t → PopSpec fuel t vals rest
   | 0, _, h => by omega
   | 1, t, h => by
     -- every type has size ≥ 1
     exfalso
     cases t <;> simp [tySize] at h
   | fuel + 2, t, h => by
-    intro vals rest hl hg
+    intro vals rest hl
     cases hs : stripPtrs t with
     | struct ifs =>
       have hsz : ∀ f ∈ ifs.toList, tySize f.2 < fuel + 1 := fun f hf => by
         have := tySize_field_lt hs hf; omega
-      have hg' : (∀ f ∈ ifs.toList, structsBehindPtr f.2 = true) ∨ ∀ x ∈ vals, x = Val.nilv := by
-        rcases hg with hg | hg
-        · exact Or.inl (fieldsBehindPtr_mem ifs (structsBehindPtr_of_struct hs hg).2)
-        · exact Or.inr hg
       obtain ⟨fvs, hp, hgo⟩ := populate_fields_spec fuel (fun t' h' => populate_spec (fuel + 1) t' h')
         ifs.toList hsz (ifs.toList.length + 1) (by omega) vals rest [] false
-        (by rw [hl, leafN_of_struct hs]) hg'
+        (by rw [hl, leafN_of_struct hs])
       unfold PopSpec
       rw [populate_struct hs, hp]
       simp only [List.nil_append, Bool.false_or]
@@ -447,12 +436,8 @@ theorem populate_spec : ∀ (fuel : Nat) (t : Ty), tySize t < fuel → ∀ (vals
       | true =>
         have hnn : ¬ ∀ x ∈ vals, x = Val.nilv := by
           rw [← anySet_false_iff, hany]; simp
-        have hd : ptrDepth t ≠ 0 := by
-          rcases hg with hg | hg
-          · exact (structsBehindPtr_of_struct hs hg).1
-          · exact absurd hg hnn
         refine ⟨wrapPtrs (ptrDepth t) (.struct fvs), ?_, ?_, fun hn => absurd hn hnn⟩
-        · simp [hd]
+        · simp
         · rw [flatLeaves_struct hs, strip_wrapPtrs, hgo]
       | false =>
         have hn : ∀ x ∈ vals, x = Val.nilv := (anySet_false_iff vals).1 hany
@@ -776,7 +761,7 @@ theorem np_flatten (cfg : FlattenCfg) (fuel : Nat) :
   intro f hf outs hm vals hl hn
   simp only [flattenMangler] at hm ⊢
   have hlen : vals.length = leafN f.2 := by rw [hl, flattenMangle_length cfg fuel f.1 f.2 outs hm]
-  obtain ⟨v, hp, _, hv⟩ := populate_spec fuel f.2 hf vals [] hlen (Or.inr hn)
+  obtain ⟨v, hp, _, hv⟩ := populate_spec fuel f.2 hf vals [] hlen
   have hmap : (outs.zip vals).map (·.2) = vals := by
     rw [List.map_snd_zip]; omega
   simp only [flattenUnmangle, hmap]
